@@ -1,6 +1,7 @@
 package props
 
 import (
+	"encoding/json"
 	"fmt"
 	"os"
 	"path/filepath"
@@ -527,5 +528,87 @@ func TestC13Nul(t *testing.T) {
 				col.Case(c.Script, true, func() interface{} { return map[string]string{"script": fmt.Sprintf("%q", c.Script)} })
 			}
 		}
+	}
+}
+
+// ---- scripts cut off inside a literal, at every byte ----
+
+// literalPieces: statements that each hold one string or regexp literal with
+// everything a literal may contain (escapes, quotes of the other kind, CR, LF,
+// CR LF behind a backslash, tabs, multi-byte characters, the other
+// delimiters). open = the text up to and including the opening delimiter.
+var literalPieces = []struct{ open, body, close string }{
+	{`a = "`, `one \` + "\r\n" + `two`, `";`},
+	{`a = "`, `one \` + "\r" + `two`, `";`},
+	{`a = "`, `one \` + "\n" + `two`, `";`},
+	{`a = "`, `q\"uote \\ back \n \t \r 'single' /slash/ é 狐 \é`, `";`},
+	{`a = '`, `q\'uote "double" \\`, `';`},
+	{`a = "`, "line\r\nbreak\ttab", `";`},
+	{`a = "`, ``, `";`},
+	{`b = /`, `x\/y\\z[0-9]+ "q" 'r' é狐`, `/i;`},
+	{`b = /`, `(?:é)\.\(`, `/im;`},
+	{`c = x ~= /`, `^a b$`, `/;`},
+	{`return [1, "`, `in \"array\" `, `", 2];`},
+	{`h = {"`, `key \\`, `": 1};`},
+}
+
+// TestC13CutLiterals: every prefix of a script that ends inside a string or
+// regexp literal is refused ("unterminated string or regexp"), every other
+// prefix is refused or accepted - and Prepare comes back from all of them.
+func TestC13CutLiterals(t *testing.T) { runCutLiterals(t, "C13") }
+
+// TestC08CutLiterals reports the same run under C08 (no prefix makes Prepare panic).
+func TestC08CutLiterals(t *testing.T) { runCutLiterals(t, "C08") }
+
+func runCutLiterals(t *testing.T, prop string) {
+	defer silenceAs("cutliterals")()
+	col := evid.New(prop, "cutliterals", "scripts made of statements that each hold one string or regexp literal with escapes, quotes of the other kind, CR, LF, CR LF behind a backslash, tabs, multi-byte characters and the other delimiters, cut off at EVERY byte offset (exhaustive), alone and behind a valid prelude; oracle: Prepare (twice, optimizer on and off) returns - never panics - and refuses every prefix that ends inside a literal; non-trivial = the cut lies inside a literal; distinct by text")
+	defer col.Flush()
+	preludes := []string{"", "x = \"ok\"; y = /fine/i;\n", "function f(q) { return q + \"s\"; }\n// a comment with \"quotes\" and /slashes/\n"}
+	n := 0
+	for _, pre := range preludes {
+		for _, lp := range literalPieces {
+			full := pre + lp.open + lp.body + lp.close + "\nreturn 1;"
+			if err, pan := eng.NewRunner(full).Prepare(false); err != nil || pan != nil {
+				t.Fatalf("harness: the uncut script is not accepted: %q: %v %v", full, err, pan)
+			}
+			from, to := len(pre)+len(lp.open), len(pre)+len(lp.open)+len(lp.body)
+			for cut := len(pre); cut <= len(full); cut++ {
+				script := full[:cut]
+				inside := cut >= from && cut <= to
+				c := &RejectCase{Prop: prop, Kind: "truncation", Script: script, Why: "cut off inside a string or regexp literal"}
+				for _, noOpt := range []bool{false, true} {
+					r := eng.NewRunner(script)
+					err, pan := r.Prepare(noOpt)
+					if pan != nil {
+						c.Msg = fmt.Sprintf("Prepare panicked: %v", pan)
+						violation(t, prop, c, "a script cut off after %d bytes makes Prepare panic: %v", cut, pan)
+					}
+					if inside && err == nil && prop == "C13" {
+						c.Msg = "accepted"
+						violation(t, prop, c, "a script cut off inside a literal (after %d bytes) was accepted", cut)
+					}
+				}
+				n++
+				col.Case(script, inside, func() interface{} { return map[string]interface{}{"script": script, "cut_inside_literal": inside} })
+			}
+		}
+	}
+	col.Set("cut_offsets_exhaustive", true)
+	col.Set("cuts", n)
+}
+
+func init() {
+	replayers["C08/truncation"] = func(raw []byte) error {
+		var c RejectCase
+		if err := json.Unmarshal(raw, &c); err != nil {
+			return err
+		}
+		for _, noOpt := range []bool{false, true} {
+			if _, pan := eng.NewRunner(c.Script).Prepare(noOpt); pan != nil {
+				return fmt.Errorf("Prepare panicked: %v", pan)
+			}
+		}
+		return nil
 	}
 }
